@@ -1,11 +1,11 @@
 (* C09 on the executable queued model (Model/Proto2Queue.v over Model/P2Inst.v), by evaluation of the concrete
    delivery orders of Proofs/P2_QueueWitnessData.v:
-     - the lost wake-up that is still open (F-C09-23: a proposal in APPLYING is not woken when its configuration becomes
-       synchronised, the proposals behind it being COMMITTED without apply phase behind its SERIALIZABLE transaction),
-     - a livelock in that situation (F-C09-22): everything pending is a pair of proposals that re-queue each other for ever,
      - regression examples: the scenarios of the repaired lost wake-ups (F-02a dead_prev, F-02b initfail_successor,
-       F-02e sync_wakeup, F-02d serializable_gate, commit_hidden_by_apply) and of the repaired wedged target (F-21 = F-C09-21) now end idle, at a fixed
-       point, with every transaction final,
+       F-02e sync_wakeup, F-02d serializable_gate, F-C09-23 sync_serializable, commit_hidden_by_apply) and of the
+       repaired wedged target (F-21 = F-C09-21) end idle, at a fixed point, every target connected, every transaction
+       final,
+     - the busy wait that is left (F-C09-22): while a device is away, behind a SERIALIZABLE transaction, everything that is
+       pending is a pair of proposals that re-queue each other: the work set never becomes empty,
      - the hypotheses of the fixed-point theorem are satisfiable on a non-trivial reachable world. *)
 From stdpp Require Import gmap.
 From Coq Require Import NArith String.
@@ -14,19 +14,6 @@ From OC Require Import Proofs.P2Base Proofs.P2Phases Proofs.P2_Queue.
 Open Scope N_scope.
 
 Definition phis (o : option ph) (p : ph) : bool := bool_decide (o = Some p).
-
-(** * Signature of the open lost wake-up (F-C09-23): a proposal in APPLYING whose turn it is (the applied index is its
-      predecessor) on a target that is mastered and synchronised *)
-Definition sig_apply_ready (w : Wd) (c : ctrl) : bool :=
-  match c with
-  | CtlProp (t, i) =>
-    match props w !! (t, i), cfgs w !! t with
-    | Some P, Some C =>
-      phis (p_apply P) Doing && (c_applied C <? i) && ((p_prev P =? 0) || (c_applied C =? p_prev P))
-      && negb (bool_decide (c_state C = CSynchronizing)) && negb (c_aterm C <? c_term C)
-      && match c_master C with Some m => negb (is_none (conns w !! m)) | None => false end
-    | _, _ => false end
-  | _ => false end.
 
 (* reachability in the executable queued model *)
 Definition q_reach (s : QWd) : Prop := exists ls, s = q_run ls.
@@ -50,37 +37,16 @@ Definition all_tx_final (w : Wd) : bool := forallb (fun it => tx_finalb (snd it)
 Definition quiescentb (o : oracle) (w : Wd) : bool :=
   forallb (fun c => match fst (p2_reconcile o w c) with [] => true | _ => false end) (q_all_ctrls w).
 
-(* an idle world, every target connected, in which the id [c], of the given shape, still has something to do *)
-Definition lost_wakeup (shape : Wd -> ctrl -> bool) : Prop :=
-  exists (s : QWd) (c : ctrl), q_reach s /\ idle s = true /\ connectedb (qw s) = true /\ shape (qw s) c = true /\
-                               fst (p2_reconcile o_quiet (qw s) c) <> [].
-
-Lemma lost_wakeup_by (shape : Wd -> ctrl -> bool) (ls : list QLabel) (c : ctrl) :
-  (let s := q_run ls in idle s && connectedb (qw s) && shape (qw s) c &&
-                        negb (match fst (p2_reconcile o_quiet (qw s) c) with [] => true | _ => false end))%bool = true ->
-  lost_wakeup shape.
-Proof.
-  cbv zeta. intros H. apply andb_prop in H. destruct H as [H H4]. apply andb_prop in H. destruct H as [H H3].
-  apply andb_prop in H. destruct H as [H1 H2].
-  exists (q_run ls), c. split; [exists ls; reflexivity|]. split; [exact H1|]. split; [exact H2|]. split; [exact H3|].
-  intros E. rewrite E in H4. discriminate.
-Qed.
-
-(* a SERIALIZABLE change and a plain change committed before the device connects; then it connects: the first proposal
-   is never woken (the configuration event names the newest proposal, which is COMMITTED without apply phase - its
-   transaction waits at the apply gate for the first one - and hands over to its successor, not to its predecessor) *)
-Theorem lost_wakeup_sync_serializable : lost_wakeup sig_apply_ready.
-Proof. apply (lost_wakeup_by _ wit_sync_serializable (CtlProp (1, 1))). vm_compute. reflexivity. Qed.
-
-(** * The work queue need not drain: a livelock behind a SERIALIZABLE transaction that is not woken (F-C09-23 + F-C09-22) *)
-(* a reachable world, every target connected, a transaction not final, in which everything that is pending is a pair of
-   proposals whose reconciles - whatever the oracle - do nothing but re-queue each other: whatever is delivered from here
-   on, the world stays as it is and the queue never becomes empty *)
+(** * The work set need not become empty: a busy wait while a device is away (F-C09-22) *)
+(* a reachable world (the device of the target has never connected: the first, SERIALIZABLE transaction waits in APPLYING,
+   the second at the apply gate, the third in APPLYING) in which everything that is pending is a pair of proposals whose
+   reconciles - whatever the oracle - do nothing but re-queue each other: whatever is delivered from here on, the world
+   stays as it is and the work set stays non-empty, until the environment moves *)
 Definition is_prop_id (k : N * N) (c : ctrl) : bool :=
   match c with CtlProp (t, i) => (t =? fst k) && (i =? snd k) | _ => false end.
-Definition livelock : Prop :=
+Definition busy_wait : Prop :=
   exists (s : QWd) (k1 k2 : N * N),
-    q_reach s /\ connectedb (qw s) = true /\ some_tx_not_final (qw s) = true /\ queue s <> [] /\
+    q_reach s /\ connectedb (qw s) = false /\ some_tx_not_final (qw s) = true /\ queue s <> [] /\
     forallb (fun c => is_prop_id k1 c || is_prop_id k2 c) (queue s) = true /\ forall o,
       p2_reconcile o (qw s) (CtlProp k1) = ([], RRequeueProp k2) /\ p2_reconcile o (qw s) (CtlProp k2) = ([], RRequeueProp k1).
 
@@ -94,9 +60,9 @@ Proof.
   rewrite E in Hall. discriminate.
 Qed.
 
-Theorem livelock_behind_gate : livelock.
+Theorem busy_wait_device_away : busy_wait.
 Proof.
-  exists (q_run wit_livelock), (1, 3), (1, 2). split; [exists wit_livelock; reflexivity|].
+  exists (q_run wit_busy_wait), (1, 3), (1, 2). split; [exists wit_busy_wait; reflexivity|].
   split; [vm_compute; reflexivity|]. split; [vm_compute; reflexivity|]. split; [vm_compute; discriminate|].
   split; [vm_compute; reflexivity|]. intros [pl v a ch ord]. vm_compute. split; reflexivity.
 Qed.
@@ -118,6 +84,9 @@ Example regression_serializable_gate : ends_well reg_serializable_gate = true.
 Proof. vm_compute. reflexivity. Qed.
 (* SERIALIZABLE Set, then two Sets on the same target (F-02d, F-C09-22) *)
 Example regression_serializable_three : ends_well reg_serializable_three = true.
+Proof. vm_compute. reflexivity. Qed.
+(* SERIALIZABLE Set and a Set before the device ever connects, then it connects (F-C09-23) *)
+Example regression_sync_serializable : ends_well reg_sync_serializable = true.
 Proof. vm_compute. reflexivity. Qed.
 (* Set and its rollback before the device ever connects, then it connects (F-02e) *)
 Example regression_sync_wakeup : ends_well reg_sync_wakeup = true.
